@@ -644,6 +644,8 @@ func (s *vSim) serviceOptions(c map[string]any) ServiceOptions {
 	switch vStr(c["pages"]) {
 	case "good":
 		o.ErrorPagePath = filepath.Join(vAssets, "pages_good")
+	case "partial":
+		o.ErrorPagePath = filepath.Join(vAssets, "pages_partial")
 	case "bad":
 		o.ErrorPagePath = filepath.Join(vAssets, "pages_bad")
 	}
